@@ -724,6 +724,9 @@ class World(object):
             return functools.partial(base, "bound-arg", pk="pv")
         if kind == "obj":
             return CallableObj(base)
+        if kind == "bound":
+            # a callable that is itself bound to another (synchronous) executor
+            return Executors.sync(name="inner").bind(base)
         raise ValueError(spec)
 
     def add_layer_method(self, target, layer, lname):
